@@ -22,7 +22,7 @@ OFFSETS = [0.0, 1e-9, -1e-9, 1e-6, -1e-6, 0.5, -0.5, 1.0, -1.0, 3.0, -3.0, 6.0, 
 def auto_lons(prj, tier, seed):
     fe, fn, k0, zw, icm = PRJ_PAR[prj]
     out = []
-    if prj == 'isg':
+    if prj in ('isg', 'isg2'):
         for z, cm in cfg.ISG_CM.items():
             for d in (0.0, 1e-9, -1e-9, 1e-6, -1e-6, 0.5, -0.5, 0.999999, -0.999999, -1.0):
                 out.append(cm + d)
@@ -53,6 +53,8 @@ def auto_lons(prj, tier, seed):
 def explicit_zones(prj, tier):
     if prj == 'isg':
         return sorted(cfg.ISG_CM)
+    if prj == 'isg2':
+        return []          # automatic zone only: the zone numbering of a copy is not part of the claim
     nz = cfg.n_zones(prj)
     if tier == 'thorough':
         return list(range(1, nz + 1))
@@ -123,7 +125,15 @@ def forward_row(case, rec):
     cms = []
     for i in idx:
         try:
-            cms.append(cm_of(case['prj'], res[i]['zone']))
+            if case['prj'] == 'isg2':
+                cmc = cfg.nearest_cm('isg2', res[i]['lonf'])
+                dd = res[i]['lonf'] - cmc
+                # exactly on a zone boundary both neighbouring meridians qualify: take the one the result was computed about
+                if abs(abs(dd) - zw / 2) < 1e-9 and (res[i]['east'] - fe) * dd < 0:
+                    cmc += 2 * dd
+                cms.append(cmc)
+            else:
+                cms.append(cm_of(case['prj'], res[i]['zone']))
         except KeyError:
             cms.append(float('nan'))
     lats = np.array([res[i]['latf'] for i in idx])
